@@ -193,7 +193,10 @@ def expression(rng, vocab, maxdeg=3, allow_div=True):
     return poly(rng, vocab, maxdeg), "poly"
 
 
-def rhs(rng, vocab):
+def rhs(rng, vocab, ckind=None):
+    if ckind:
+        r = rng.random()
+        return num(coef(rng, ckind)) if r < 0.6 else term(rng, vocab, 1, ckind)
     r = rng.random()
     if r < 0.45:
         return num(coef(rng))
